@@ -311,8 +311,9 @@ Fixpoint relink (d : nat) (m : dict) (hp : list (ind pref)) (r : nat) : option (
 Definition relink_all (d : nat) (m : dict) (hp : list (ind pref)) (rs : list nat) : option (list (ind pref)) :=
   ofold (fun hq r => relink d m hq r) rs hp.
 
-(* the individuals from which the decoder re-links parents: the members of the generations *)
-Definition relink_roots (gs : list gen) (snaps : list (list nat)) : list nat := all_members gs.
+(* the individuals from which the decoder re-links parents:
+   list(chain( *history.generations, *history.archive_history)) *)
+Definition relink_roots (gs : list gen) (snaps : list (list nat)) : list nat := all_members gs ++ concat snaps.
 
 Definition dec_obj (o : eobj) : objinfo :=
   match o with EObj o => o | ELegacyMulti b => mkObj b [] end.
@@ -353,17 +354,11 @@ Inductive reach (H : hist) : nat -> Prop :=
 Definition uid_faithful (H : hist) : Prop :=
   forall r1 r2, reach H r1 -> reach H r2 -> uid_of (h_heap H) r1 = uid_of (h_heap H) r2 -> r1 = r2.
 
-(* reachable from the members of the generations alone *)
-Inductive greach (H : hist) : nat -> Prop :=
-| greach_gen : forall r, gen_member H r -> greach H r
-| greach_parent : forall c p, greach H c -> In (PRef p) (parents_of (get (h_heap H) c)) -> greach H p.
-
-(* guard of the round-trip theorems: every parent slot of a reachable individual holds an object
-   (not a uid string), and every archive member is a member of a generation or an ancestor of
-   one (the decoder re-links parents starting from the generation members only) *)
-Record well_formed (H : hist) : Prop := {
-  wf_objects : forall c x, reach H c -> In x (parents_of (get (h_heap H) c)) -> exists p, x = PRef p;
-  wf_archive : forall r, snap_member H r -> greach H r }.
+(* guard of the round-trip theorems (besides one object per uid): every parent slot of a reachable
+   individual holds an object, not a uid string (strings appear only in an individual that was
+   loaded on its own from a dump) *)
+Definition no_str (H : hist) : Prop :=
+  forall c x, reach H c -> In x (parents_of (get (h_heap H) c)) -> exists p, x = PRef p.
 
 Definition pref_rel (R : nat -> nat -> Prop) (x y : pref) : Prop :=
   match x, y with
@@ -583,14 +578,6 @@ Definition uid_faithful_b (H : hist) : bool := nodup_b (map (uid_of (h_heap H)) 
 Definition no_str_b (H : hist) : bool :=
   forallb (fun r => negb (has_str (get (h_heap H) r))) (reach_list H).
 
-(* every archive member is reachable from the members of the generations *)
-Definition greach_list (H : hist) : list nat :=
-  let roots := all_members (h_gens H) in
-  reach_walk (S (length roots + slots (h_heap H) + length (h_heap H))) (h_heap H) roots [].
-
-Definition arch_covered_b (H : hist) : bool :=
-  forallb (fun r => existsb (Nat.eqb r) (greach_list H)) (concat (h_snaps H)).
-
 (* closedness of an encoded history *)
 Definition mem_b (x : nat) (l : list nat) : bool := existsb (Nat.eqb x) l.
 Definition e_closed_b (E : ehist) : bool :=
@@ -637,7 +624,7 @@ Definition holds_b (o : obs) : bool :=
 
 (* classification used by the driver: is the saved history inside the guard of the theorems *)
 Definition guard_b (o : obs) : bool :=
-  uid_faithful_b (ob_mem o) && no_str_b (ob_mem o) && arch_covered_b (ob_mem o).
+  uid_faithful_b (ob_mem o) && no_str_b (ob_mem o).
 
 (* light save: OptHistory.save(is_save_light=True) writes the encoding of the lightened history *)
 Definition light_agree (d : nat) (H : hist) (E : ehist) : bool :=
